@@ -67,3 +67,87 @@ pub fn packet_with_answer(r: ARecord) -> APacket {
         ..Default::default()
     }
 }
+
+// ---------------------------------------------------------------------------------------------
+// the C01 oracle: no panic, bounded heap, terminates
+
+pub const HEAP_BASE: usize = 64 * 1024;
+pub const HEAP_PER_BYTE: usize = 1024;
+pub const HEAP_HARD_CAP: usize = 1 << 30;
+pub const CPU_LIMIT_S: f64 = 5.0;
+pub const CPU_CONFIRM_S: f64 = 20.0;
+
+static WATCHDOG: std::sync::Once = std::sync::Once::new();
+
+fn ensure_watchdog() {
+    WATCHDOG.call_once(|| {
+        meter::start_watchdog(CPU_LIMIT_S, |input| {
+            let (prop, dir) = crate::driver::RUN_INFO.lock().unwrap().clone().unwrap_or(("C01".into(), "/verif/replays".into()));
+            let copy = input.clone();
+            let finished = meter::finishes_within(CPU_CONFIRM_S, move || {
+                let _ = Packet::parse(&copy);
+            });
+            if finished {
+                eprintln!("watchdog: a case exceeded {} CPU-s but finished on an isolated re-run; not reported", CPU_LIMIT_S);
+                return;
+            }
+            let path = dir.join(format!("{}-hang.json", prop));
+            let v = serde_json::json!({
+                "property": prop, "section": "bytes", "signature": "c01:hang",
+                "message": format!("Packet::parse burnt more than {} CPU-seconds twice on this input", CPU_CONFIRM_S),
+                "input": crate::runner::hex(&input),
+            });
+            let _ = std::fs::write(&path, serde_json::to_string_pretty(&v).unwrap());
+            println!("VIOLATION property={} replay={}", prop, path.display());
+            std::process::exit(1);
+        });
+    });
+}
+
+/// Parse `b` under all three instruments. Returns whether the parser accepted the input.
+pub fn guarded_parse(b: &[u8], case: &mut Case) -> Result<bool, Fail> {
+    ensure_watchdog();
+    meter::watch_begin(b);
+    let t0 = meter::thread_cpu_ns();
+    let (r, heap) = meter::measure(b, HEAP_HARD_CAP, || meter::catch(|| Packet::parse(b).map(|p| p.questions.len() + p.answers.len() + p.name_servers.len() + p.additional_records.len())));
+    let dt = (meter::thread_cpu_ns() - t0) as f64 / 1e6;
+    meter::watch_end();
+    case.max("cpu_ms_per_case", dt);
+    case.max("heap_bytes_per_input_byte", heap.peak as f64 / b.len().max(1) as f64);
+    let accepted = match r {
+        Err(p) => {
+            let mut f: Fail = p.into();
+            f.msg = format!("Packet::parse panicked on {} bytes {}: {}", b.len(), crate::runner::hex(&b[..b.len().min(120)]), f.msg);
+            return Err(f);
+        }
+        Ok(Ok(_)) => true,
+        Ok(Err(_)) => false,
+    };
+    let bound = HEAP_BASE + HEAP_PER_BYTE * b.len();
+    if heap.peak > bound {
+        return Err(Fail::new(
+            "c01:heap",
+            format!("Packet::parse held {} heap bytes for a {}-byte input (bound {}): {}", heap.peak, b.len(), bound, crate::runner::hex(&b[..b.len().min(64)])),
+        ));
+    }
+    if dt / 1000.0 > CPU_LIMIT_S {
+        return Err(Fail::new("c01:cpu", format!("Packet::parse took {:.1} CPU-ms on {} bytes", dt, b.len())));
+    }
+    Ok(accepted)
+}
+
+use crate::runner::Case;
+use simple_dns::{header_buffer, PacketFlag};
+
+/// the eight header-peek functions must return Ok/Err on any buffer
+pub fn peek_all(b: &[u8]) -> Result<(), Fail> {
+    lib("header_buffer::id", || header_buffer::id(b).is_ok())?;
+    lib("header_buffer::questions", || header_buffer::questions(b).is_ok())?;
+    lib("header_buffer::answers", || header_buffer::answers(b).is_ok())?;
+    lib("header_buffer::name_servers", || header_buffer::name_servers(b).is_ok())?;
+    lib("header_buffer::additional_records", || header_buffer::additional_records(b).is_ok())?;
+    lib("header_buffer::has_flags", || header_buffer::has_flags(b, PacketFlag::RESPONSE).is_ok())?;
+    lib("header_buffer::rcode", || header_buffer::rcode(b).is_ok())?;
+    lib("header_buffer::opcode", || header_buffer::opcode(b).is_ok())?;
+    Ok(())
+}
